@@ -29,14 +29,14 @@ package dagordering
 //@ funcfield Callback.Released
 //@   params e, peer, err
 //@
-//@ // contents of the buffer: the abstract map of the LRU cache
-//@ spec inbuf(buf *EventsBuffer, k interface{}) bool = has(lruMap[buf.incompletes.lru], k)
-//@ spec bufval(buf *EventsBuffer, k interface{}) interface{} = lruMap[buf.incompletes.lru][k]
+//@ // contents of the buffer: the abstract view (lhas/lval) of the LRU cache, whose operations are verified under C29
+//@ spec inbuf(buf *EventsBuffer, k interface{}) bool = lhas(buf.incompletes.lru, k)
+//@ spec bufval(buf *EventsBuffer, k interface{}) interface{} = lval(buf.incompletes.lru, k)
 //@ // well-formed wrapper
 //@ spec wok(w *event) bool = w != nil && w.event != nil
 //@ // buffer invariant: callbacks present; every buffered value is a well-formed wrapper;
 //@ // a wrapper that was processed has been reported released; Released was called at most once per wrapper, and only for released ones
-//@ inv EventsBuffer bufinv(buf): buf != nil && buf.incompletes != nil && buf.incompletes.lru != nil && buf.callback.Process != nil && buf.callback.Get != nil && buf.callback.Exists != nil &&
+//@ inv EventsBuffer bufinv(buf): buf != nil && buf.incompletes != nil && cinv(buf.incompletes.lru) && buf.callback.Process != nil && buf.callback.Get != nil && buf.callback.Exists != nil &&
 //@   forall(k interface{}, inbuf(buf, k) ==> typeis(bufval(buf, k), "*event") && wok(unbox(bufval(buf, k), "*event"))) &&
 //@   forall(w *event, gProcessed[w] ==> w.released) &&
 //@   forall(w *event, 0 <= gRelCnt[w] && gRelCnt[w] <= 1 && (gRelCnt[w] == 1 ==> w.released))
@@ -81,17 +81,18 @@ package dagordering
 //@ func (*EventsBuffer).pushEvent
 //@   requires bufinv(buf) && wok(e)
 //@   requires [live] !e.released && !gProcessed[e]
+//@   requires [nooverflow] !recheck ==> e.event.Size() >= 0 && buf.incompletes.lru.weight + e.event.Size() <= 18446744073709551615
 //@   requires forall(j, 0, len(incompleteEventsList), wok(incompleteEventsList[j]))
-//@   modifies all(event).released, all(event).err, gConn[*], gProcessed[*], gRelCnt[*], lruMap[buf.incompletes.lru][*], lruW[buf.incompletes.lru]
+//@   modifies all(event).released, all(event).err, gConn[*], gProcessed[*], gRelCnt[*], buf.incompletes.lru.items[*], buf.incompletes.lru.weight, lel[buf.incompletes.lru.evictList], llen[buf.incompletes.lru.evictList], lidx[*], lown[*], nEvict, gEvictKey, gEvictVal, all(simplewlru.entry).value, all(simplewlru.entry).weight
 //@   ensures  bufinv(buf)
 //@   ensures  [conn] forall(h hash.Event, old(gConn[h]) ==> gConn[h])
 //@   ensures  [flags] forall(w *event, (old(w.released) ==> w.released) && (old(gProcessed[w]) ==> gProcessed[w]) && gRelCnt[w] >= old(gRelCnt[w]))
 //@   ensures  [done] result ==> e.released && gProcessed[e] && gConn[e.event.ID()] == gConn[e.event.ID()]
-//@   loop 1 modifies all(event).released, all(event).err, gConn[*], gProcessed[*], gRelCnt[*], lruMap[buf.incompletes.lru][*], lruW[buf.incompletes.lru]
+//@   loop 1 modifies all(event).released, all(event).err, gConn[*], gProcessed[*], gRelCnt[*], buf.incompletes.lru.items[*], buf.incompletes.lru.weight, lel[buf.incompletes.lru.evictList], llen[buf.incompletes.lru.evictList], lidx[*], lown[*], nEvict, gEvictKey, gEvictVal, all(simplewlru.entry).value, all(simplewlru.entry).weight
 //@   loop 1 invariant bufinv(buf) && 0 <= _k && _k <= len(_range) && forall(j, 0, len(_range), wok(_range[j]))
 //@   loop 1 invariant forall(h hash.Event, old(gConn[h]) ==> gConn[h])
 //@   loop 1 invariant forall(w *event, (old(w.released) ==> w.released) && (old(gProcessed[w]) ==> gProcessed[w]) && gRelCnt[w] >= old(gRelCnt[w])) && e.released && gProcessed[e]
-//@   loop 2 modifies all(event).released, all(event).err, gConn[*], gProcessed[*], gRelCnt[*], lruMap[buf.incompletes.lru][*], lruW[buf.incompletes.lru]
+//@   loop 2 modifies all(event).released, all(event).err, gConn[*], gProcessed[*], gRelCnt[*], buf.incompletes.lru.items[*], buf.incompletes.lru.weight, lel[buf.incompletes.lru.evictList], llen[buf.incompletes.lru.evictList], lidx[*], lown[*], nEvict, gEvictKey, gEvictVal, all(simplewlru.entry).value, all(simplewlru.entry).weight
 //@   loop 2 invariant bufinv(buf) && 0 <= _k && _k <= len(_range)
 //@   loop 2 invariant forall(h hash.Event, old(gConn[h]) ==> gConn[h])
 //@   loop 2 invariant forall(w *event, (old(w.released) ==> w.released) && (old(gProcessed[w]) ==> gProcessed[w]) && gRelCnt[w] >= old(gRelCnt[w])) && e.released && gProcessed[e]
@@ -99,30 +100,30 @@ package dagordering
 //@ // spillIncompletes: afterwards the buffer is within the limits; whatever left the buffer was reported released
 //@ func (*EventsBuffer).spillIncompletes
 //@   requires bufinv(buf)
-//@   modifies all(event).released, all(event).err, gRelCnt[*], lruMap[buf.incompletes.lru][*], lruW[buf.incompletes.lru]
+//@   modifies all(event).released, all(event).err, gRelCnt[*], buf.incompletes.lru.items[*], buf.incompletes.lru.weight, lel[buf.incompletes.lru.evictList], llen[buf.incompletes.lru.evictList], lidx[*], lown[*], nEvict, gEvictKey, gEvictVal, all(simplewlru.entry).value, all(simplewlru.entry).weight
 //@   ensures  bufinv(buf)
-//@   ensures  [limits] len(lruMap[buf.incompletes.lru]) % 4294967296 <= limit.Num && lruW[buf.incompletes.lru] <= limit.Size
+//@   ensures  [limits] len(buf.incompletes.lru.items) % 4294967296 <= limit.Num && buf.incompletes.lru.weight <= limit.Size
 //@   ensures  [flags] forall(w *event, (old(w.released) ==> w.released) && gRelCnt[w] >= old(gRelCnt[w]))
 //@   ensures  [spilled] forall(k interface{}, old(inbuf(buf, k)) && !inbuf(buf, k) ==> now(unbox(old(bufval(buf, k)), "*event")).released)
 //@   ensures  [kept] forall(k interface{}, inbuf(buf, k) ==> old(inbuf(buf, k)) && bufval(buf, k) == old(bufval(buf, k)))
-//@   loop 1 modifies all(event).released, all(event).err, gRelCnt[*], lruMap[buf.incompletes.lru][*], lruW[buf.incompletes.lru]
+//@   loop 1 modifies all(event).released, all(event).err, gRelCnt[*], buf.incompletes.lru.items[*], buf.incompletes.lru.weight, lel[buf.incompletes.lru.evictList], llen[buf.incompletes.lru.evictList], lidx[*], lown[*], nEvict, gEvictKey, gEvictVal, all(simplewlru.entry).value, all(simplewlru.entry).weight
 //@   loop 1 invariant bufinv(buf)
 //@   loop 1 invariant forall(w *event, (old(w.released) ==> w.released) && gRelCnt[w] >= old(gRelCnt[w]))
 //@   loop 1 invariant forall(k interface{}, old(inbuf(buf, k)) && !inbuf(buf, k) ==> now(unbox(old(bufval(buf, k)), "*event")).released)
 //@   loop 1 invariant forall(k interface{}, inbuf(buf, k) ==> old(inbuf(buf, k)) && bufval(buf, k) == old(bufval(buf, k)))
 //@
-//@ // within(buf): the buffer holds no more events and bytes than its limits
-//@ spec within(buf *EventsBuffer) bool = len(lruMap[buf.incompletes.lru]) % 4294967296 <= buf.limit.Num && lruW[buf.incompletes.lru] <= buf.limit.Size
+//@ // bwithin(buf): the buffer holds no more events and bytes than its limits
+//@ spec bwithin(buf *EventsBuffer) bool = len(buf.incompletes.lru.items) % 4294967296 <= buf.limit.Num && buf.incompletes.lru.weight <= buf.limit.Size
 //@ func (*EventsBuffer).PushEvent
-//@   requires bufinv(buf) && de != nil
-//@   modifies all(event).released, all(event).err, gConn[*], gProcessed[*], gRelCnt[*], lruMap[buf.incompletes.lru][*], lruW[buf.incompletes.lru]
+//@   requires bufinv(buf) && de != nil && de.Size() >= 0 && buf.incompletes.lru.weight + de.Size() <= 18446744073709551615
+//@   modifies all(event).released, all(event).err, gConn[*], gProcessed[*], gRelCnt[*], buf.incompletes.lru.items[*], buf.incompletes.lru.weight, lel[buf.incompletes.lru.evictList], llen[buf.incompletes.lru.evictList], lidx[*], lown[*], nEvict, gEvictKey, gEvictVal, all(simplewlru.entry).value, all(simplewlru.entry).weight
 //@   ensures  bufinv(buf)
-//@   ensures  [limits] old(within(buf)) ==> within(buf)
+//@   ensures  [limits] old(bwithin(buf)) ==> bwithin(buf)
 //@   ensures  [flags] forall(w *event, (old(w.released) ==> w.released) && (old(gProcessed[w]) ==> gProcessed[w]) && gRelCnt[w] >= old(gRelCnt[w]))
 //@
 //@ // Clear: the buffer is empty and every wrapper that was buffered has been reported released
 //@ func (*EventsBuffer).Clear
 //@   requires bufinv(buf)
-//@   modifies all(event).released, all(event).err, gRelCnt[*], lruMap[buf.incompletes.lru][*], lruW[buf.incompletes.lru]
-//@   ensures  bufinv(buf) && len(lruMap[buf.incompletes.lru]) % 4294967296 == 0
+//@   modifies all(event).released, all(event).err, gRelCnt[*], buf.incompletes.lru.items[*], buf.incompletes.lru.weight, lel[buf.incompletes.lru.evictList], llen[buf.incompletes.lru.evictList], lidx[*], lown[*], nEvict, gEvictKey, gEvictVal, all(simplewlru.entry).value, all(simplewlru.entry).weight
+//@   ensures  bufinv(buf) && len(buf.incompletes.lru.items) % 4294967296 == 0
 //@   ensures  [released] forall(k interface{}, old(inbuf(buf, k)) && !inbuf(buf, k) ==> now(unbox(old(bufval(buf, k)), "*event")).released)
